@@ -10,7 +10,11 @@ ID = 'C09'
 QUICK_RUNS = 3000
 THOROUGH_SECONDS = 300
 INF = float('inf')
-PRIOS = [0, 0.0, 1, 1.5, 1.5, 2, -1, 3.25, INF, -INF]
+PRIOS = [0, 0.0, 1, 1.5, 1.5, 2, -1, 3.25, INF, -INF,
+         # exact integer times beyond the precision of a double (time tags,
+         # nanosecond counters): ints and floats compare exactly in Python
+         2 ** 53, 2 ** 53 + 1, 2 ** 53 + 2, float(2 ** 53), -0.0,
+         2 ** 64 + 1]
 
 RULE = ('direct cases: one evaluation = one op history (add, re-add, remove, '
         'pop, peek smallest/largest, empty, clear, iteration; one in six a bulk '
